@@ -12,6 +12,7 @@ structure St where
   x : Ctx := {}
   s : EvalState := {}
   live : Bool := false
+  spaceObs : Bool := false     -- the harness reports the block-space accounting (space= / #sz= / load=)
 
 def univ : List Nat := [0, 1, 2, 3, 4, 5, 6, 7, 8, 9]
 
@@ -157,7 +158,7 @@ def acctTok (id : Nat) (a : Account) : String :=
 def dumpStr (x : Ctx) (s : EvalState) : String :=
   let l := s.top
   let ids := knownAssets x l
-  let hd := s!"payset={s.payset.length} fees={l.fees} ctr={counterOf x l} space={s.txBytes}"
+  let hd := s!"payset={s.payset.length} fees={l.fees} ctr={counterOf x l}"
   let as := univ.map (fun id => acctTok id (acctOf x l id))
   let cs := ids.filterMap (fun i => (creatorOf x l i).map (fun cr => s!"C{i}={cr}"))
   let ps := ids.flatMap (fun i => univ.filterMap (fun a => (paramsOf x l (a, i)).map (fun p =>
@@ -170,6 +171,11 @@ def dumpStr (x : Ctx) (s : EvalState) : String :=
 def headerLoad (P : Params) (bytes : Nat) : Nat :=
   if P.loadTracking then Gen.Fees.ComputeLoad (bytes : Int) (P.protoBytes : Int) else 0
 
+/-- the dump with the bytes charged to the block (`blockTxBytes`) after the txn counter -/
+def dumpStrSp (sp : Bool) (x : Ctx) (s : EvalState) : String :=
+  let d := dumpStr x s
+  if sp then d.replace s!" ctr={counterOf x s.top} " s!" ctr={counterOf x s.top} space={s.txBytes} " else d
+
 def moneyAll (P : Params) (x : Ctx) (l : Layer) : Nat := (univ.map (fun a => balWP P (acctOf x l a))).sum
 
 def step (st : St) (line : String) : St × String :=
@@ -177,19 +183,20 @@ def step (st : St) (line : String) : St × String :=
   else if line.startsWith "block " then
     let (P, B) := parseBlock (fields line).tail
     if P.rewardUnit = 0 then ({ st with live := false }, "bad-op")
-    else ({ P := P, x := { parents := [], base := B }, s := {}, live := true }, "ok")
+    else ({ P := P, x := { parents := [], base := B }, s := {}, live := true, spaceObs := (fields line).contains "spaceobs=1" }, "ok")
   else if !st.live then (st, "bad-op")
-  else if line == "dump" then (st, dumpStr st.x st.s)
+  else if line == "dump" then (st, dumpStrSp st.spaceObs st.x st.s)
   else if line == "endblock" then
     ({ st with live := false },
-     s!"end payset={st.s.payset.length} ctr={counterOf st.x st.s.top} all={moneyAll st.P st.x st.s.top} load={headerLoad st.P st.s.txBytes}")
+     s!"end payset={st.s.payset.length} ctr={counterOf st.x st.s.top} all={moneyAll st.P st.x st.s.top}"
+       ++ (if st.spaceObs then s!" load={headerLoad st.P st.s.txBytes}" else ""))
   else if line.startsWith "group" then
     match parseGroup ((line.drop 5).toString.trimAscii.toString) with
     | none => (st, "bad-op")
     | some g =>
       match evalGroup st.P st.x st.s g with
-      | .ok s' => ({ st with s := s' }, "ok | " ++ dumpStr st.x s')
-      | .error e => (st, gerrStr e ++ " | " ++ dumpStr st.x st.s)
+      | .ok s' => ({ st with s := s' }, "ok | " ++ dumpStrSp st.spaceObs st.x s')
+      | .error e => (st, gerrStr e ++ " | " ++ dumpStrSp st.spaceObs st.x st.s)
   else (st, "bad-op")
 
 end AlgoVerif.Driver.Lcore
